@@ -60,6 +60,14 @@ def check_chain(rep, prog, rid, what, start_body, start, hops, sink=None, conseq
                     hit = False
                     if param is not None and b is cur:
                         hit = _is_param(tr, param)
+                    elif param is not None and b.is_closure:
+                        # a closure of the current function that captured the parameter
+                        t0 = df.strip(tr)
+                        flds = [x for x in t0[2] if x != "*"] if t0[0] == "path" and t0[1] == ("env",) else []
+                        if flds:
+                            cap = flds[0]
+                            nm = cap[len("_ref__"):] if cap.startswith("_ref__") else cap
+                            hit = len(flds) == 1 and nm == cur.local_name(param)
                     elif param is None and src_pred is not None:
                         hit = src_pred(df.canon(tr, b))
                     if hit:
